@@ -82,9 +82,15 @@ def run_case(role, history, data: bytes, cuts):
     sess, ip = S.session_with(role, history)
     chunks = C.split(data, cuts)
     got_msgs = 0
-    for ch in chunks:
+    for ci, ch in enumerate(chunks):
+        # the caller may hand over bytes, a bytearray or a memoryview (and reuse its buffer afterwards)
+        kind = (len(data) + ci) % 3
+        buf = bytearray(ch) if kind else None
+        arg = ch if kind == 0 else (buf if kind == 1 else memoryview(buf))
         try:
-            res = sess.receive(ch)
+            res = sess.receive(arg)
+            if buf is not None:
+                buf[:] = b"\xAA" * len(buf)
         except sl.ProtocolError as e:
             obs["outcome:ProtocolError"] = 1
             if sess.state is not S.ST.CLOSED:
